@@ -50,14 +50,22 @@ func ZZH_C19_evict() {
 	nextHash := 0
 	evicted := map[*zzSubmitted]bool{}
 	// pre-state outside the step budget: account 0 already has 0..2 ready transactions in the pool
-	for r := zz.Choice("readyBefore", 3); r > 0; r-- {
+	// (in nonce order, or the higher nonce first: parked, then promoted when the lower one arrives)
+	nReady := zz.Choice("readyBefore", 3)
+	descending := nReady == 2 && zz.Choice("readyBeforeOrder", 2) == 1
+	for r := nReady; r > 0; r-- {
 		h := zzHashes[nextHash]
-		tx := &pb.BxhTransaction{From: zzAccts[0], To: zzAccts[1], Nonce: m.committed[0] + uint64(nextHash), Timestamp: 1, TransactionHash: types.NewHashByStr(h)}
+		off := uint64(nextHash)
+		if descending {
+			off = uint64(nReady - 1 - nextHash)
+		}
+		tx := &pb.BxhTransaction{From: zzAccts[0], To: zzAccts[1], Nonce: m.committed[0] + off, Timestamp: 1, TransactionHash: types.NewHashByStr(h)}
 		nextHash++
 		s := &zzSubmitted{acct: 0, nonce: tx.Nonce, hash: h, tx: tx}
 		m.subs = append(m.subs, s)
 		zzCheckBatch(m, mp.ProcessTransactions([]pb.Transaction{tx}, false, true), batchSize)
 		s.admitted = present(s)
+		zz.Assert("C19.evict.pre-state-admitted", s.admitted)
 	}
 	pauses := 0
 	arrivedAt := map[*zzSubmitted]int{} // number of pauses that had passed when the transaction arrived
